@@ -35,18 +35,35 @@ func deleteChildOperator(d *dataTreeNavigator, context Context, expressionNode *
 
 		parentNode := candidate.Parent
 
-		candidatePath := candidate.GetPath()
-		childPath := candidatePath[len(candidatePath)-1]
-
+		deleted := false
 		if parentNode.Kind == MappingNode {
-			deleteFromMap(candidate.Parent, candidate, childPath)
+			deleted = deleteFromMap(candidate.Parent, candidate)
 		} else if parentNode.Kind == SequenceNode {
-			deleteFromArray(candidate.Parent, candidate, childPath)
+			deleted = deleteFromArray(candidate.Parent, candidate)
 		} else {
 			return Context{}, fmt.Errorf("cannot delete nodes from parent of tag %v", parentNode.Tag)
 		}
+		if !deleted && isBeyondTheEnd(candidate) {
+			// an index past the end of its sequence: there is nothing to delete
+			continue
+		}
+		if !deleted {
+			// a computed value - a slice (`del(.a[1:3])`), a copy bound to a variable out of a sorted list - records the
+			// place of what it was computed from, but it is not a node of the document: deleting whatever sits at that
+			// place would remove something else
+			return Context{}, fmt.Errorf("cannot delete %v: it is a computed value, not a node of the document (select the elements themselves, e.g. del(.a[1], .a[2]))", candidate.GetNicePath())
+		}
 	}
 	return context, nil
+}
+
+// isBeyondTheEnd recognises the null that a read-only traversal answers for an index past the end of a sequence
+func isBeyondTheEnd(candidate *CandidateNode) bool {
+	if candidate.Parent == nil || candidate.Parent.Kind != SequenceNode || candidate.Key == nil || candidate.Tag != "!!null" {
+		return false
+	}
+	index, err := parseInt(candidate.Key.Value)
+	return err == nil && index >= len(candidate.Parent.Content)
 }
 
 func removeFromContext(context Context, candidate *CandidateNode) (Context, error) {
@@ -62,46 +79,34 @@ func removeFromContext(context Context, candidate *CandidateNode) (Context, erro
 	return context.ChildContext(newResults), nil
 }
 
-func deleteFromMap(node *CandidateNode, candidate *CandidateNode, childPath interface{}) {
+func deleteFromMap(node *CandidateNode, candidate *CandidateNode) bool {
 	log.Debug("deleteFromMap")
 	contents := node.Content
 	newContents := make([]*CandidateNode, 0)
+	deleted := false
 
-	// find the entry itself first (its key may be a number spelt 0x1F, which the path records as 31)
-	position := -1
+	// the entry is found by the node itself (its key may be a number spelt 0x1F, which the path records as 31)
 	for index := 0; index+1 < len(contents); index = index + 2 {
-		if contents[index+1] == candidate || contents[index] == candidate {
-			position = index
-			break
-		}
-	}
-
-	for index := 0; index < len(contents); index = index + 2 {
 		key := contents[index]
 		value := contents[index+1]
 
-		shouldDelete := index == position
-		if position < 0 {
-			// childPath is an int for keys that are numbers (`1: a`): compare the spelling
-			shouldDelete = key.Value == fmt.Sprintf("%v", childPath)
+		if !deleted && (value == candidate || key == candidate) {
+			deleted = true
+			continue
 		}
-
-		log.Debugf("shouldDelete %v? %v == %v = %v", NodeToString(value), key.Value, childPath, shouldDelete)
-
-		if !shouldDelete {
-			newContents = append(newContents, key, value)
-		}
+		newContents = append(newContents, key, value)
 	}
 	node.Content = newContents
+	return deleted
 }
 
-func deleteFromArray(node *CandidateNode, candidate *CandidateNode, childPath interface{}) {
+func deleteFromArray(node *CandidateNode, candidate *CandidateNode) bool {
 	log.Debug("deleteFromArray")
 	contents := node.Content
 	newContents := make([]*CandidateNode, 0)
 
 	// the index an element recorded when it was added can differ from where it sits now
-	// (after sort, reverse, slicing, concatenation): find the element itself first.
+	// (after sort, reverse, slicing, concatenation): the element is found by the node itself.
 	position := -1
 	for index := 0; index < len(contents); index = index + 1 {
 		if contents[index] == candidate {
@@ -109,19 +114,18 @@ func deleteFromArray(node *CandidateNode, candidate *CandidateNode, childPath in
 			break
 		}
 	}
+	if position < 0 {
+		return false
+	}
 
 	for index := 0; index < len(contents); index = index + 1 {
 		value := contents[index]
 
-		shouldDelete := index == position
-		if position < 0 {
-			shouldDelete = fmt.Sprintf("%v", index) == fmt.Sprintf("%v", childPath)
-		}
-
-		if !shouldDelete {
+		if index != position {
 			value.Key.Value = fmt.Sprintf("%v", len(newContents))
 			newContents = append(newContents, value)
 		}
 	}
 	node.Content = newContents
+	return true
 }
